@@ -200,7 +200,7 @@ impl ToTokens for DataMatchArm<'_> {
                     ::darling::export::identity::<fn(&::darling::export::syn::Meta) -> ::darling::Result<_>>(#with_callable)(__nested)
                         #post_transform
                         .map(#ty_ident::#variant_ident)
-                        .map_err(|e| e.with_span(__nested).at(#name_in_attr))
+                        .map_err(|__e| __e.with_span(__nested).at(#name_in_attr))
                 }
             ));
         } else {
